@@ -134,7 +134,8 @@ def requested_for(p, recs):
                 seq.append(('set', rid, op['k'], op['v']))
             else:
                 seq.append(('meta', rid, dict(op['m'])))
-        seq.append(('save', rid))
+        if rec.get('end') != 'abort':
+            seq.append(('save', rid))
         req[rid] = seq
     return req
 
@@ -151,6 +152,11 @@ def run_producer(cas, p, recs, tolerate):
             except IOError:
                 if not tolerate:
                     raise
+        if rec.get('end') == 'abort':
+            # the recorder aborts every recording it does not keep (sampling, discard): nothing of it is stored, and
+            # the recordings requested before and after it are stored all the same
+            cas.abort_recording(r)
+            continue
         try:
             cas.save_recording(r)
         except IOError:
@@ -304,11 +310,16 @@ def run_schedule(ctx, case, chooser=None):
             if wrapped.after_close:
                 raise Violation('storage operations %r were applied after the wrapped cassette had been closed' % (
                     wrapped.after_close[:3],), 'after-close')
+        aborted_ids = set('P%d/%d' % (p, r + 1) for p, recs in enumerate(workload['producers'])
+                          for r, rec in enumerate(recs) if rec.get('end') == 'abort')
         for w, plist in sessions:
             for p in plist:
                 for rid, seq in requested_for(p, workload['producers'][p]).items():
                     for w2, wrapped in wrappeds.items():
                         got = [e for e in wrapped.log if e[1] == rid]
+                        aborted = rid in aborted_ids
+                        if aborted and w2 == w and got == seq[:len(got)]:
+                            continue      # writes of a recording that is never saved may be dropped
                         if got != (seq if w2 == w else []):
                             raise Violation('operations reaching wrapped recording %s on storage %d: %r, requested %r' % (
                                 rid, w2, got, seq if w2 == w else []), 'order-exactly-once')
@@ -331,7 +342,9 @@ def check_case(ctx, case):
         'mode:' + case['sched']['mode'], 'producers:%d' % len(case['workload']['producers']),
         'preemptions:%s' % min(sched.preemptions, 5), 'timer-firings:%s' % min(sched.timer_firings, 5),
         'failing-op' if fail_set(case['workload']) else 'no-failing-op', 'opcode' if case.get('opcode') else 'line',
-        'sessions:%d' % len(sessions_of(case['workload']))))
+        'sessions:%d' % len(sessions_of(case['workload'])),
+        'aborted-recording' if any(r.get('end') == 'abort' for recs in case['workload']['producers'] for r in recs)
+        else 'all-saved'))
     ctx.count('steps', sched.steps)
 
 
@@ -341,7 +354,8 @@ ops = st.one_of(
     st.fixed_dictionaries({'op': st.just('meta'), 'm': st.dictionaries(st.sampled_from(['m', 'n']), st.integers(0, 3),
                                                                         min_size=1, max_size=2)}))
 recordings = st.fixed_dictionaries({'ops': st.lists(ops, max_size=5),
-                                    'fail': st.sampled_from([None, None, None, 0, 1, 2, 'save'])})
+                                    'fail': st.sampled_from([None, None, None, 0, 1, 2, 'save']),
+                                    'end': st.sampled_from(['save', 'save', 'save', 'abort'])})
 workloads = st.fixed_dictionaries(
     {'producers': st.lists(st.lists(recordings, min_size=1, max_size=2), min_size=1, max_size=3)},
     optional={'second': st.fixed_dictionaries({'from': st.integers(1, 2), 'share': st.booleans()})})
